@@ -177,6 +177,20 @@ def split_ext(ex, st, name):
 
 
 
+def with_extension_text(ex, st, chars, ext):
+    """Path::with_extension / PathBuf::set_extension: no file name -> unchanged; otherwise the text is
+    truncated right after the file stem and '.' + ext appended when ext is non-empty."""
+    toks = tokenize(ex, st, chars)
+    if not toks or toks[-1][0].kind != NORMAL:
+        return list(chars)
+    comp, start, end = toks[-1]
+    stem, _ = split_ext(ex, st, comp.text)
+    out = list(chars[:start + len(stem)])
+    if ext:
+        out += [ch(DOT)] + list(ext)
+    return out
+
+
 def _fin_pathbuf_text(ex, st, cont, out, rest):
     b = PathBufT([])
     for c in out:
@@ -348,6 +362,9 @@ def make_textpath_models():
             stem, e = split_ext(ex, st, toks[-1][0].text)
             return opt_some(ex, BoxRef(SStr(stem)))
         return opt_none(ex)
+
+    def m_with_extension(ex, st, args, callee, ty):
+        return PathBufT(with_extension_text(ex, st, text_of(ex, st, args[0]), text_of(ex, st, args[1])))
 
     def m_to_str(ex, st, args, callee, ty):
         return opt_some(ex, BoxRef(SStr(text_of(ex, st, args[0]))))
